@@ -412,7 +412,12 @@ impl<VM: VMBinding> MarkCompactSpace<VM> {
     }
 
     pub fn compact(&self) {
-        let mut to = Address::ZERO;
+        // If no object survives, the bump pointer goes back to the start of the first region
+        // (the same place `calculate_forwarding_pointer` starts compacting to).
+        let Some((first_region_start, _)) = self.pr.iterate_allocated_regions().next() else {
+            return;
+        };
+        let mut to = first_region_start;
         for (from_start, size) in self.pr.iterate_allocated_regions() {
             let from_end = from_start + size;
             for obj in self.linear_scan_objects(from_start..from_end) {
